@@ -567,9 +567,9 @@ func init() {
 	)
 	addVariants(
 		Variant{Name: "benign: intra-proxy sendAck with a plain map index", Property: "C09", File: ipr, Benign: true,
-			Old: "\t\tif r, ok2 := ps.receivers[key]; ok2 && r != nil && r.streamClient != nil {\n", New: "\t\tif r := ps.receivers[key]; r != nil && r.streamClient != nil {\n"},
+			Old: "\t\tif r, ok2 := ps.receivers[key]; ok2 && r != nil && r.streamClient != nil {\n\t\t\tif err := r.sendAck(req); err != nil {\n", New: "\t\tif r := ps.receivers[key]; r != nil && r.streamClient != nil {\n\t\t\tif err := r.sendAck(req); err != nil {\n"},
 		Variant{Name: "benign: same edit seen by C01", Property: "C01", File: ipr, Benign: true,
-			Old: "\t\tif r, ok2 := ps.receivers[key]; ok2 && r != nil && r.streamClient != nil {\n", New: "\t\tif r := ps.receivers[key]; r != nil && r.streamClient != nil {\n"},
+			Old: "\t\tif r, ok2 := ps.receivers[key]; ok2 && r != nil && r.streamClient != nil {\n\t\t\tif err := r.sendAck(req); err != nil {\n", New: "\t\tif r := ps.receivers[key]; r != nil && r.streamClient != nil {\n\t\t\tif err := r.sendAck(req); err != nil {\n"},
 		Variant{Name: "benign: NodeMeta checks the logger first", Property: "C09", File: shm, Benign: true,
 			Old: "\tif sd.manager == nil || sd.manager.memberlistConfig == nil {\n\t\treturn nil\n\t}\n\t// Copy shard map under read lock", New: "\tif sd.manager == nil {\n\t\treturn nil\n\t}\n\tif sd.manager.memberlistConfig == nil {\n\t\treturn nil\n\t}\n\t// Copy shard map under read lock"},
 	)
@@ -597,7 +597,7 @@ func init() {
 		Variant{Name: "benign: OnConnectionListUpdate with a len check after the map is built", Property: "C11", File: mcc, Benign: true,
 			Old: "\tconnMap := make(map[string]func() (net.Conn, error), len(muxes))\n", New: "\tn := len(muxes)\n\tconnMap := make(map[string]func() (net.Conn, error), n)\n"},
 		Variant{Name: "benign: codec Unmarshal stores the classification in a local", Property: "C17", File: cod, Benign: true,
-			Old: "\tif common.IsInvalidUTF8Error(err) {\n", New: "\tif invalid := common.IsInvalidUTF8Error(err); invalid {\n"},
+			Old: "\terr := c.delegate.Unmarshal(data, v)\n\tif common.IsInvalidUTF8Error(err) {\n", New: "\terr := c.delegate.Unmarshal(data, v)\n\tif invalid := common.IsInvalidUTF8Error(err); invalid {\n"},
 		Variant{Name: "benign: recvAck keeps the aggregated count in a named local", Property: "C05", File: pst, Benign: true,
 			Old: "\t\t\t\ts.idRing.Discard(pendingDiscard)\n", New: "\t\t\t\tn := pendingDiscard\n\t\t\t\ts.idRing.Discard(n)\n"},
 		Variant{Name: "benign: same edit seen by C01", Property: "C01", File: pst, Benign: true,
